@@ -1414,24 +1414,32 @@ def ngroups_all():
     return list(NGROUPS)
 
 
+def drop_undecided(run, max_fraction=0.25):
+    """Obligations the solver could not decide inside the cap (unknown / wall-clock limit), or whose
+    model is an artefact of the function abstraction (the native replay agrees with the oracle to
+    rounding), are removed from the claim and listed as undecided in the evidence; they are neither
+    passes nor violations. If more than max_fraction of the work is undecided the check stays
+    inconclusive (the machinery, not the code, needs attention)."""
+    und = [x for x in run.inconclusive if x.get('reason') in (
+        'solver model did not reproduce natively', 'solver unknown/timeout') or
+        'exceeded the wall-clock limit' in x.get('reason', '')]
+    other = [x for x in run.inconclusive if x not in und]
+    if len(und) <= max_fraction * max(run.obligations, 1):
+        run.inconclusive = other
+        run.obligations -= sum(1 for x in und if 'obligation' in x)
+        run.obligations = max(run.obligations, run.discharged)
+        run.notes.append({'undecided_removed_from_claim': len(und),
+                          'undecided_items': sorted(set(str(x.get('case', x.get('program', x.get('reason', '?'))))
+                                                        .split('@')[0][:120] for x in und))[:40]})
+
+
 def c03(run):
     shapes = (['Dual2', 'Dual3', 'HyperDual', 'HyperHyperDual', 'DualVec2', 'Dual2<Dual>'] if run.tier == 'quick'
               else SC + ['DualVec2', 'Dual2Vec2', 'HyperDualVec22', 'DualVecD2'] + NEST_ALL[:6])
     count = 10 if run.tier == 'quick' else 400
     run.timeout_ms = 3000 if run.tier == 'quick' else 15000
     c03_programs(run, shapes, count, 3 if run.tier == 'quick' else 4)
-    # Obligations the solver could not decide inside the cap, or whose model is an artefact of the
-    # function abstraction (the native replay agrees with the oracle to rounding), are removed from
-    # the claim and listed as undecided; they are neither passes nor violations.
-    undecided = [x for x in run.inconclusive if x.get('reason') in (
-        'solver model did not reproduce natively', 'solver unknown/timeout') or
-        'exceeded the wall-clock limit' in x.get('reason', '')]
-    other = [x for x in run.inconclusive if x not in undecided]
-    if len(undecided) * 4 <= max(run.obligations, 1):
-        run.inconclusive = other
-        run.obligations -= len(undecided)
-        run.notes.append({'undecided_obligations_removed_from_claim': len(undecided),
-                          'undecided_programs': sorted(set(x.get('case', '?').split('@')[0] for x in undecided))[:40]})
+    drop_undecided(run)
     run.bounds = {'programs': f'{count} seeded random expression DAGs (seed {run.seed}): <= 3 variables, depth <= '
                               f'{3 if run.tier == "quick" else 4}, <= 28 tokens, sharing through repeated inputs '
                               'and re-used sub-expressions, all operation kinds of the interface',
@@ -1618,7 +1626,9 @@ def _c04_storage_chunk(run, args):
 def c04(run):
     count = 8 if run.tier == 'quick' else 60
     progs = gen_programs(run.seed + 7, count, max_vars=2, max_depth=3, single_path=True)
-    parallel(run, _c04_chunk, [progs[i:i + 1] for i in range(len(progs))])
+    parallel(run, _c04_chunk, [progs[i:i + 1] for i in range(len(progs))],
+             chunk_timeout=150 if run.tier == 'quick' else 1800)
+    drop_undecided(run)
     pairs = STORAGE_PAIRS[:5] if run.tier == 'quick' else STORAGE_PAIRS
     sp = progs[:4] if run.tier == 'quick' else progs[:20]
     parallel(run, _c04_storage_chunk, [(sp[i:i + 1], pairs) for i in range(len(sp))])
@@ -1651,3 +1661,160 @@ EXPLAIN['C04'] = ('for each seeded program every type/seeding that exposes the s
                   'traced term in the variables X0..Xn after substituting the unit seeds; z3 decides pairwise '
                   'equality of these terms for all real points (no oracle involved); static vs dynamic storage: '
                   'EUF-identical traces; NDERIV constants read from the compiled crate')
+
+
+# ---------------------------------------------------------------------------------------------
+# C12 linear algebra (the crate's LU over dual entries)
+# ---------------------------------------------------------------------------------------------
+def _alg_mul(levels, a, b):
+    """product of two jets in the type's algebra (oracle side)"""
+    return jets.compose(levels, [a, b], jets.func_deriv('mul', [a[0], b[0]])) if levels else [ir.mul(a[0], b[0])]
+
+
+def _alg_add(a, b):
+    return [ir.add(x if x is not None else ZERO, y if y is not None else ZERO) for x, y in zip(a, b)]
+
+
+def _c12_chunk(run, specs):
+    cases = trace(specs, 'c12', run.seed, max_paths=4096 if run.tier == 'thorough' else 600)
+    for case in cases:
+        run.cases += 1
+        k = case['kind'].split(';')
+        n, op = int(k[1]), k[2]
+        run.functions.add(f'linalg::LU::new + {op} (n={n})')
+        run.instantiations.add(f"LU<{case['shape']}<S>,S>")
+        v = case['validation']
+        run.validated += v['checked']
+        if v['errors']:
+            run.inconclusive.append({'case': case_id(case), 'reason': 'translator validation failed',
+                                     'errors': v['errors'][:2]})
+            continue
+        if case.get('truncated') and n <= 2:
+            run.inconclusive.append({'case': case_id(case), 'reason': 'path enumeration truncated'})
+            continue
+        terms = ir.dag_to_terms(case['dag'])
+        levels = case['levels']
+        nleaf = len(jets.leaves_of(tuple(levels))) if levels else 1
+        # variable names are fixed by the input names: A{i}{j}.<path>
+        paths_names = case['paths_names'] or ['']
+
+        def in_leaves(nm):
+            out = []
+            for p in paths_names:
+                out.append(ir.var(nm + ('.' + p if p else '')))
+            return out
+        if not levels:
+            def in_leaves(nm):   # noqa: F811  plain float entries
+                return [ir.var(nm)]
+        A = [[in_leaves(f'A{i}{j}') for j in range(n)] for i in range(n)]
+        revars = set([A[i][j][0][1] for i in range(n) for j in range(n)] + [f'b{i}' + ('.' + paths_names[0] if levels else '') for i in range(n)])
+        if levels:
+            revars = set([A[i][j][0][1] for i in range(n) for j in range(n)] + [in_leaves(f'b{i}')[0][1] for i in range(n)])
+        # real-part determinant (Leibniz) for the singular paths
+        det_re = ZERO
+        for perm in itertools.permutations(range(n)):
+            sgn = 1
+            for x in range(n):
+                for y in range(x + 1, n):
+                    if perm[x] > perm[y]:
+                        sgn = -sgn
+            t = ONE if sgn == 1 else const(-1)
+            for i in range(n):
+                t = ir.mul(t, A[i][perm[i]][0])
+            det_re = ir.add(det_re, t)
+        limit = 10 ** 9 if (n <= 2 or run.tier == 'thorough') else 40
+        for pi, path in enumerate(case['paths'][:limit]):
+            res = path['result']
+            role = f'C12:lu:{op}'
+            if 'panic' in res:
+                pctx = PathCtx(run, case, path, terms, [])
+                run.paths += 1
+                if decide_infeasible(run, case, pctx, 'panic path: ' + res['panic'][:60], role):
+                    run.infeasible_paths += 1
+                continue
+            flags = dict(res['flags'])
+            if flags.get('singular'):
+                # reported singular => the real part of the matrix is singular on this path
+                pctx = PathCtx(run, case, path, terms, [('ne', det_re, ZERO)])
+                run.paths += 1
+                if decide_infeasible(run, case, pctx, 'reported singular although det(re A) != 0', role + ':singular'):
+                    run.infeasible_paths += 1
+                continue
+            outs = {nm: algebra.leaves_terms(terms, l) for (nm, l) in res['outputs']}
+            obs = []
+            if op == 'solve':
+                b = [in_leaves(f'b{i}') for i in range(n)]
+                x = [outs[f'x{i}'] for i in range(n)]
+                for i in range(n):
+                    acc = [ZERO] * nleaf
+                    for j in range(n):
+                        acc = _alg_add(acc, _alg_mul(levels, A[i][j], [t if t is not None else ZERO for t in x[j]]))
+                    for li in range(nleaf):
+                        obs.append((f'x{i}#{li}', acc[li], b[i][li]))   # (A x)_i == b_i, part by part
+            elif op == 'inverse':
+                inv = [[outs[f'inv{i}{j}'] for j in range(n)] for i in range(n)]
+                for i in range(n):
+                    for j in range(n):
+                        acc = [ZERO] * nleaf
+                        for kk in range(n):
+                            acc = _alg_add(acc, _alg_mul(levels, A[i][kk], [t if t is not None else ZERO for t in inv[kk][j]]))
+                        for li in range(nleaf):
+                            obs.append((f'inv{i}{j}#{li}', acc[li], (ONE if i == j else ZERO) if li == 0 else ZERO))
+            else:
+                det = [ZERO] * nleaf
+                for perm in itertools.permutations(range(n)):
+                    sgn = 1
+                    for x_ in range(n):
+                        for y_ in range(x_ + 1, n):
+                            if perm[x_] > perm[y_]:
+                                sgn = -sgn
+                    prod = A[0][perm[0]]
+                    for i in range(1, n):
+                        prod = _alg_mul(levels, prod, A[i][perm[i]])
+                    det = _alg_add(det, prod if sgn == 1 else [ir.neg(t) for t in prod])
+                for li in range(nleaf):
+                    obs.append((f'det#{li}', outs['det'][li], det[li]))
+            # for solve / inverse the obligation is the defining identity: lhs is built from the
+            # implementation's result, rhs is the given data; the role of 'impl' and 'oracle' in the
+            # replay is therefore symmetric
+            pctx = PathCtx(run, case, path, terms, [])
+            decide_path(run, case, pctx, obs, role, revars=revars, vacuity=(pi == 0))
+        if len(run.samples) < 3:
+            run.sample({'case': case_id(case), 'paths': len(case['paths']), 'truncated': case.get('truncated'),
+                        'obligations': {'solve': '(A (x) x)_i == b_i in the truncated Taylor algebra, every part',
+                                        'inverse': 'A (x) A^-1 == I, every part',
+                                        'det': 'det == Leibniz polynomial in the algebra (its eps part is '
+                                               'Jacobi\'s formula), sign = permutation parity on every pivoting '
+                                               'path'}[op],
+                        'singular_paths': 'path condition entails det(re A) == 0'})
+
+
+def c12(run):
+    specs = []
+    shapes = ['Real', 'Dual', 'Dual2'] if run.tier == 'quick' else ['Real', 'Dual', 'Dual2', 'HyperDual', 'DualVec2']
+    for sh in shapes:
+        for n in (1, 2):
+            for op in ('solve', 'det', 'inverse'):
+                specs.append((sh, f'lu;{n};{op}', (1 << (ngroups(sh) * (n * n + n))) - 1))
+    if run.tier == 'thorough':
+        for op in ('solve', 'det'):
+            specs.append(('Real', f'lu;3;{op}', 0))
+            specs.append(('Dual', f'lu;3;{op}', 0))
+    run.timeout_ms = 8000 if run.tier == 'quick' else 60000
+    parallel(run, _c12_chunk, [[s] for s in specs], chunk_timeout=600 if run.tier == 'quick' else 7200)
+    drop_undecided(run, 0.1)
+    run.bounds = {'sizes': 'n = 1, 2 complete (all pivoting paths); n = 3 over f64-like and Dual entries in the '
+                           'thorough tier, first 4096 paths of the decision tree',
+                  'entry types': ', '.join(shapes),
+                  'not applicable inside C12': 'jacobi_eigenvalue, smallest_ev, nalgebra symmetric_eigen (iteration '
+                                               'to convergence on symbolic data has no finite unwinding; rotation '
+                                               'formulas nest sqrt/recip too deep); nalgebra lu/try_inverse; '
+                                               'sizes 4..6; the conditioning-scaled tolerance (real arithmetic '
+                                               'is exact here)'}
+
+
+EXPLAIN['C12'] = ('the crate\'s LU::new / solve / determinant / inverse are executed over dual entries at the '
+                  'symbolic scalar, every pivoting path enumerated; z3 decides the defining identities A x = b, '
+                  'A A^-1 = I and det = Leibniz polynomial in the truncated Taylor algebra part by part, for all '
+                  'real matrices on the path; a singular report must entail det(re A) = 0; every pivot division '
+                  'is shown non-zero (definedness)')
